@@ -115,6 +115,14 @@ impl Check for C01 {
                     v = Some(Violation::new("content", m.clone()));
                 }
             }
+            // a descriptor number closed twice is, in a process with other
+            // threads, somebody else's file: the reader then reads foreign
+            // content (or nothing) from a handle it obtained correctly
+            if let Some((_, m)) = inv.violations.iter().find(|(n, _)| *n == "double-close") {
+                if v.is_none() {
+                    v = Some(Violation::new("double-close", m.clone()));
+                }
+            }
         }
         out.nontrivial = overlap(&run);
         if let Some(mut v) = v {
@@ -183,6 +191,14 @@ impl Check for C05 {
                 v = Some(Violation::new("panic", format!("operation panicked under concurrency: {} ({})", r.short(), p)).attr("op", r.op.name()));
             } else if let Err(e) = &r.out {
                 v = Some(Violation::new("error", format!("operation failed merely because of concurrent activity: {}", r.short())).attr("op", r.op.name()).attr("errno", format!("{:?}", e.os)));
+            }
+        }
+        // "maintenance skips what has vanished" -- and nothing else: after an
+        // entry vanished under it, a pass must keep addressing the entries of
+        // the directory it listed
+        if v.is_none() {
+            if let Some((n, m)) = run.w.inv.lock().unwrap().violations.iter().find(|(n, _)| *n == "maintenance-path") {
+                v = Some(Violation::new(n, m.clone()));
             }
         }
         // probes: races that actually happened
